@@ -71,6 +71,14 @@ func (p *Parser) SetLastEvaluatedT(some any) {
 	}
 }
 
+// SetSuggestTargetT names the receiver completion is asked for, when it is
+// not the value the analysis goes on with.
+func (p *Parser) SetSuggestTargetT(t *base.T) {
+	if p.ErrorRow == p.LspTargetRow && t != nil {
+		p.LspSuggestTargetT = *t
+	}
+}
+
 func (p *Parser) GetLastEvaluatedT() base.T {
 	if p.lastEvaluatedT == nil {
 		return *base.MakeUntyped()
